@@ -15,6 +15,15 @@ mod c03;
 mod alpha;
 mod c02spec;
 mod c06;
+#[allow(dead_code)]
+mod ref_webp;
+#[allow(dead_code)]
+mod gen_vp8;
+mod c02;
+mod c05;
+#[allow(dead_code)]
+mod gen_vp8l;
+mod c01;
 
 fn main() {
     let args: Vec<String> = std::env::args().collect();
@@ -37,6 +46,9 @@ fn main() {
         "alpha" => alpha::run(tier, seed, out, extra),
         "c02spec" => c02spec::run(tier, seed, out, extra),
         "c06" => c06::run(tier, seed, out, extra),
+        "c02" => c02::run(tier, seed, out, extra),
+        "c05" => c05::run(tier, seed, out, extra),
+        "c01" => c01::run(tier, seed, out, extra),
         other => {
             eprintln!("unknown check {other}");
             std::process::exit(2);
